@@ -49,6 +49,9 @@ func repoSeeds() []string {
 // fixed hostile programs: each targets a path that once failed
 var hostileFixed = []string{
 	"a equ b\nb equ a\n;assert a\nmov a, b\n",
+	"i for 1\ndat i\nrof\nx equ y+1\ny equ x+1\nj for x\ndat j\nrof\n",
+	"i for 2\ndat i\nrof\nx equ x\nj for 1\ndat j\nrof\nk for x+1\ndat k\nrof\n",
+	"i for 1\nx equ y\ny equ z\nz equ x\nrof\nj for z\ndat j\nrof\n",
 	"a equ a\n;assert a\n",
 	"a equ b b\nb equ c c\nc equ d d\nd equ 1\ndat a\n",
 	"x equ ; nothing\ndat x\n",
